@@ -164,8 +164,9 @@ def applyDigest (s : CState) (d : Digest) : CState × List Event :=
 
 /-- `strconv.ParseUint(s, 10, 64)`: decimal digits only, non-empty, value `< 2^64`. -/
 def parseUint64 (s : String) : Option Nat :=
-  if s.isEmpty || !s.all Char.isDigit then none else
-    let n := s.foldl (fun a c => a * 10 + (c.toNat - '0'.toNat)) 0
+  let cs := s.toList
+  if cs.isEmpty || !cs.all Char.isDigit then none else
+    let n := Nat.ofDigitChars 10 cs 0
     if n < 2^64 then some n else none
 
 /-- one iteration of the loop body of `applyDeltaEntry`; the `Bool` is `return`
